@@ -121,6 +121,13 @@ class C11(Harness):
             ctx.assume(hs[-1] <= 2 * SP + 1)
             inp["fh"] = hs
             inp["fh_in_fit"] = bool(ctx.fresh_bool("fh_in_fit"))
+            if cell["strategy"] == "mean" and not cell["seasonal"] and nn >= 2:
+                # one observation may be missing: the window mean is the mean of the observed values in the window
+                npos = ctx.fresh_int("nan_pos")  # none, the newest or the oldest observation
+                ctx.assume((npos == -1) | (npos == nn - 1) | (npos == 0))
+                if int(npos) >= 0:
+                    inp["y"][int(npos)] = float("nan")
+                    inp["nan_pos"] = int(npos)
         elif kind == "insample":
             wl = ctx.fresh_int("wl")
             ctx.assume((wl >= 1) & (wl <= nn))
@@ -307,7 +314,11 @@ class C11(Harness):
                 elif strat == "last":
                     P.eq("seasonal-last", v, y[n - sp + ((hh - 1) % sp)])
                 elif strat == "mean" and sp == 1:
-                    P.eq("mean", v, sum(y[n - weff :]) / weff)
+                    obs = [t for t in y[n - weff :] if not is_nan(t)]
+                    if not obs:
+                        P.check("mean", is_nan(v), {"what": "a window without observations forecasts NaN"})
+                    else:
+                        P.eq("mean", v, sum(obs) / len(obs))
                 elif strat == "mean":
                     # same-season values inside the window, seasons aligned with the END of the series
                     pos = [i for i in range(n - weff, n) if (n - 1 + hh - i) % sp == 0]
